@@ -421,6 +421,31 @@ type VerifWorld struct {
 	deferred     int
 	multi        bool
 	deferredMu   sync.Mutex
+	sink         net.Listener
+	sinkAddr     *net.TCPAddr
+	sinkMu       sync.Mutex
+	sinkDials    int
+}
+
+func (w *VerifWorld) startSink() {
+	ln, err := net.Listen("tcp4", "127.0.0.1:0")
+	if err != nil {
+		return
+	}
+	w.sink = ln
+	w.sinkAddr = ln.Addr().(*net.TCPAddr)
+	go func() {
+		for {
+			c, err := ln.Accept()
+			if err != nil {
+				return
+			}
+			w.sinkMu.Lock()
+			w.sinkDials++
+			w.sinkMu.Unlock()
+			c.Close()
+		}
+	}()
 }
 
 func (w *VerifWorld) fileName(i int) string {
@@ -588,6 +613,9 @@ func VerifNewWorld(op string) (*VerifWorld, string) {
 	cfg.PeerHandshakeTimeout = time.Hour
 	cfg.MaxOpenFiles = 0
 	cfg.DisableOutgoingEncryption = true
+	cfg.PrivatePeerIDPrefix = "-PV0001-"
+	cfg.PrivateExtensionHandshakeClientVersion = "PrivClient 1"
+	cfg.TrackerHTTPPrivateUserAgent = "PrivAgent/1"
 	for k, v := range m {
 		if !strings.HasPrefix(k, "cfg.") {
 			continue
@@ -650,6 +678,7 @@ func VerifNewWorld(op string) (*VerifWorld, string) {
 	}
 	w.tor = tor
 	w.t = tor.torrent
+	w.startSink()
 	return w, fmt.Sprintf("ok isize=%d ", len(w.infoBytes)) + w.observe()
 }
 
@@ -684,6 +713,9 @@ func (w *VerifWorld) Close() {
 		p.conn.eof = true
 		p.conn.cond.Broadcast()
 		p.conn.mu.Unlock()
+	}
+	if w.sink != nil {
+		w.sink.Close()
 	}
 	if w.dir != "" {
 		os.RemoveAll(w.dir)
@@ -755,7 +787,7 @@ func (w *VerifWorld) settle() error {
 		if t.stoppedEventAnnouncer != nil && len(t.trackers) == 0 {
 			busy = true
 		}
-		if len(t.incomingHandshakers) > 0 {
+		if len(t.incomingHandshakers) > 0 || len(t.outgoingHandshakers) > 0 {
 			busy = true
 		}
 		if !busy {
@@ -899,6 +931,15 @@ func (w *VerifWorld) observe() string {
 		}
 	}
 	fmt.Fprintf(&sb, " peers=%s npeers=%d", verifJoin(live), len(t.peers))
+	var pexon []string
+	for _, k := range w.peerKeys() {
+		if p := w.peers[k]; p.pe != nil && p.pe.PEX != nil {
+			if _, ok := t.peers[p.pe]; ok {
+				pexon = append(pexon, strconv.Itoa(k))
+			}
+		}
+	}
+	fmt.Fprintf(&sb, " pexon=%s", verifJoin(pexon))
 	var banned []string
 	for ip := range t.bannedPeerIPs {
 		banned = append(banned, ip)
@@ -912,6 +953,9 @@ func (w *VerifWorld) observe() string {
 	sort.Strings(cips)
 	fmt.Fprintf(&sb, " cips=%s", verifJoin(cips))
 	fmt.Fprintf(&sb, " hs=%d/%d", len(t.incomingHandshakers), len(t.outgoingHandshakers))
+	w.sinkMu.Lock()
+	fmt.Fprintf(&sb, " dials=%d addrs=%d", w.sinkDials, st.Addresses.Total)
+	w.sinkMu.Unlock()
 	fmt.Fprintf(&sb, " info=%d", map[bool]int{true: 1, false: 0}[t.info != nil])
 	w.sto.mu.Lock()
 	fmt.Fprintf(&sb, " open=%d", w.sto.opened-w.sto.closed)
@@ -998,6 +1042,13 @@ func (w *VerifWorld) Op(op string) string {
 		if !w.call(func() { w.tor.Announce() }) {
 			return "hang"
 		}
+	case "magnet":
+		_, err := w.tor.Magnet()
+		v := "ok"
+		if err != nil {
+			v = "refused"
+		}
+		return "magnet=" + v + " " + w.observeAfterSettle()
 	case "obs":
 	case "gate":
 		w.sto.mu.Lock()
@@ -1074,9 +1125,23 @@ func (w *VerifWorld) Op(op string) string {
 			w.dead = true
 			return "hang"
 		}
+	case "dhtpeers":
+		// a DHT lookup result for this info hash (delivered by Session.processDHTResults to every torrent
+		// of the session with that info hash)
+		var addrs []*net.TCPAddr
+		for _, a := range strings.Split(strings.ReplaceAll(m["addrs"], "@", w.sinkAddr.String()), "+") {
+			if ta, err := net.ResolveTCPAddr("tcp4", a); err == nil {
+				addrs = append(addrs, ta)
+			}
+		}
+		select {
+		case w.t.dhtPeersC <- addrs:
+		default:
+			return "skipped:dht-channel-full " + w.observeAfterSettle()
+		}
 	case "addpeers":
 		var addrs []*net.TCPAddr
-		for _, a := range strings.Split(m["addrs"], ",") {
+		for _, a := range strings.Split(strings.ReplaceAll(m["addrs"], "@", w.sinkAddr.String()), ",") {
 			ta, err := net.ResolveTCPAddr("tcp4", a)
 			if err == nil {
 				addrs = append(addrs, ta)
@@ -1177,6 +1242,16 @@ func (w *VerifWorld) opPeer(m map[string]string) string {
 		}
 	}
 	res2 := "accepted"
+	if p.pe != nil && len(c.hs) == 68 {
+		switch {
+		case strings.HasPrefix(string(c.hs[48:]), w.sess.config.PrivatePeerIDPrefix):
+			res2 += " pid=priv"
+		case strings.HasPrefix(string(c.hs[48:]), publicPeerIDPrefix):
+			res2 += " pid=pub"
+		default:
+			res2 += " pid=other"
+		}
+	}
 	if p.pe == nil {
 		res2 = "refused"
 		if c.isClosed() {
@@ -1268,7 +1343,7 @@ func (w *VerifWorld) opMsg(m map[string]string) string {
 		}
 		msg = peerprotocol.ExtensionMetadataMessage{Type: peerprotocol.ExtensionMetadataMessageTypeData, Piece: u("i"), TotalSize: len(w.infoBytes), Data: data}
 	case "pex":
-		msg = peerprotocol.ExtensionPEXMessage{Added: string(verifCompact(m["added"])), Dropped: string(verifCompact(m["dropped"]))}
+		msg = peerprotocol.ExtensionPEXMessage{Added: string(w.compact(m["added"])), Dropped: string(w.compact(m["dropped"]))}
 	case "piece":
 		return w.opPiece(p, m)
 	default:
@@ -1366,6 +1441,13 @@ func verifUnhex(s string) []byte {
 }
 
 // verifCompact: "1.2.3.4:80+5.6.7.8:90" → compact peers
+func (w *VerifWorld) compact(s string) []byte {
+	if w.sinkAddr != nil {
+		s = strings.ReplaceAll(s, "@", w.sinkAddr.String())
+	}
+	return verifCompact(s)
+}
+
 func verifCompact(s string) []byte {
 	var out []byte
 	for _, a := range strings.Split(s, "+") {
